@@ -181,6 +181,43 @@ def r04_7(ck, F):
                   f"cancelling it there loses the value", b.loc(bad[0][-1]) if bad else None)
 
 
+def r04_9(ck, F):
+    ck.rule("R04.9", "a stashed message is never overwritten: in base::Receiver::recv every store of Some(..) into one of "
+            "the receiver's hold-over slots (self.recved: a message already taken from the port; self.item: a deserialized "
+            "item waiting for its ports) happens under `slot.is_none()`, or no other Some-store to that slot can reach it "
+            "without the slot having been emptied by take() in between",
+            "send of an item with ports cancelled between its data and its port message, then further items: the receiver "
+            "stashes the next data message, restarts, and reads the port again — the stashed item is overwritten and lost "
+            "while its successor is delivered", floor=3)
+    b = F.main_body("rch::base::receiver::Receiver::recv")
+    n = 0
+    for fld in ("recved", "item"):
+        stores = [(bb, i) for bb, i, s in b.field_stores(fld) if "Some" in mir.show(b.expr(s["rv"]["o"]) if s["rv"].get("o") else ("x",))
+                  or (s["rv"]["r"] == "agg" and s["rv"].get("variant") == "Some")]
+        takes = [bb for bb, t in b.calls({"std::option::Option::take", "std::mem::take"})
+                 if mir.last_field(b.expr(t["a"][0])) == fld]
+        if not stores:
+            raise mir.AnchorMissing(f"Some-store into self.{fld} in base::Receiver::recv")
+        for k, (bb, i) in enumerate(stores):
+            n += 1
+            guarded = any(m is True and e[0] == "call" and e[1] == "std::option::Option::is_none" and mir.last_field(e[2][0]) == fld
+                          for e, m in conds(b, bb))
+            if guarded:
+                ck.ok(f"recv#{fld}-store{k}", "stored under slot.is_none()", b.loc(bb, i))
+                continue
+            clash = None
+            for sb, si in stores:
+                p = b.find_path_cp([sb], [bb], avoid=takes, from_succ=True)
+                if p is not None:
+                    clash = (sb, si, p)
+                    break
+            ck.expect(clash is None, f"recv#{fld}-store{k}", "no earlier stash can reach this store without a take()",
+                      f"base::Receiver::recv overwrites self.{fld} at {b.loc(bb, i)}: the Some(..) stored at "
+                      f"{b.loc(clash[0], clash[1]) if clash else ''} can still be in the slot (no take() on the path, no is_none() guard)",
+                      b.loc(bb, i), {"path": [b.loc(x) for x in (clash[2] if clash else [])][:14]})
+    ck.expect(n >= 3, "recv#slots", f"{n} hold-over stores", f"only {n} stores found", None)
+
+
 def r04_8(ck, F):
     import cancel
     cancel.rule(ck, F, "R04.8", only=("chmux::receiver::", "rch::base::", "rch::mpsc::", "chmux::sender::", "chmux::credit::"), floor=5)
@@ -192,4 +229,5 @@ def run(ck, F):
     ck.run_rule(c01.r01_5)
     ck.run_rule(c01.r01_5b)
     ck.run_rule(r04_8)
+    ck.run_rule(r04_9)
     ck.run_rule(c01.r01_8)
